@@ -79,6 +79,7 @@ type deferRec struct {
 
 type frame struct {
 	vc       *VC
+	preCall  *State // state right before the call being translated
 	fn       *ssa.Function
 	prefix   string
 	depth    int
